@@ -24,6 +24,7 @@ ASSUMPTIONS = [
     "image shapes (6,6,6), (7,8,9), (12,13,14); boxes s in {1,2,3,(2,3,1)}; positions restricted to the binned grid (integer binned coordinate for odd s, half-integer for even s): off-grid positions interpolate differently on the two sides and the statement does not claim them",
     "block-sum identity compared to 1e-5 relative for every order (both sides read on their integer grids)",
     "batch loaders hold 2 or 3 images of equal shape and different content",
+    "added during the seeding waves: integer / float64 images, mixed numpy / dask batches, Fortran-ordered and strided numpy images, shapes whose leading axes are multiples of b",
 ]
 
 IMG_SHAPES = [(6, 6, 6), (7, 8, 9), (12, 13, 14)]
